@@ -201,6 +201,37 @@ CLAIMED = {
              "(C14); one assignor per member; schedules sampled.",
         technique="Lean 4 trace-indexed invariant proofs over an executable acceptor + trace validation of real group members on the simulator",
     ),
+    "C01": dict(
+        text="Machine-checked for every history the per-partition acceptor accepts: single flight; the log is accepted "
+             "records in acceptance order, duplicated only as whole consecutive re-sent batches; idempotent: at most once, "
+             "acknowledged => appended, per-task order. Sequence range and no gap/reuse are proved for the Kafka-rule "
+             "increment and, as _partial, for the code as it is (counter below 2^31, no batch given up), with "
+             "kernel-checked counterexamples for both provisos (two KNOWN-FINDINGs: negative wrap pinned by the test "
+             "suite; expiry of an idempotent batch while its leader is unknown). Every run feeds the real producer's "
+             "histories under seeded fault schedules (drops before/after apply, lost replies, NOT_LEADER & co, leader "
+             "migration, stale metadata, counters near 2^31) to the acceptor, compares its log with the simulated "
+             "cluster's, and evaluates the Lean holds functions on the ground truth. Progress only on the model "
+             "(c01_progress_partial).",
+        design="3/C01",
+        note="trusted: Lean kernel; Env Broker (Kafka idempotent append; re-derived on every trace, disagreement with the "
+             "simulator is exit 2); the 'no ghost application' assumption; the simulator, observation wrappers and the "
+             "projection to one partition; code between two observed events is covered only by the traces.",
+        technique="Lean 4 trace acceptor + invariants; trace validation of the real producer on the simulator",
+    ),
+    "C02": dict(
+        text="Machine-checked: done() gives every pending future its own record's offset, timestamp and type; results "
+             "are final; done/noack/failure cover every future; reply layout per version; on accepted histories: "
+             "resolved at most once, results are the true coordinates in the broker log, flush()/stop() return only "
+             "after earlier records are resolved, acks=0 => no metadata; idempotent: failure only through a "
+             "non-retriable reply or a give-up (partial, KNOWN-FINDING with kernel-checked witness). Tied by T-diff on "
+             "the real MessageBatch and handle_response (v0-v8) and by trace validation of the real producer on the "
+             "simulator. Bounded-time resolution is proved only as one quiet round on the model and explored on the "
+             "simulator.",
+        design="3/C02",
+        note="trusted: as C01; LogAppendTime only with Produce >= v2; send_batch per-record results derived from the "
+             "batch future.",
+        technique="Lean 4 model of batch resolution (T-diff) + trace acceptor (trace validation on the simulator)",
+    ),
 }
 
 NOT_YET = {}
